@@ -345,6 +345,7 @@ type vfC08ConnState struct {
 	serverOK   map[string]int // successful Client.Subscribe calls per channel
 	connSubs   map[string]int // connect-time subscriptions handed out by OnConnecting
 	extended   bool
+	gatedSub   bool // a gated client subscribe command is in flight
 	mu         sync.Mutex
 }
 
@@ -625,18 +626,29 @@ func vfC08Run(t *testing.T, cs vfC08Case, out *vfC08Out, isKnown func(string) bo
 		// block, so the virtual clock could never advance. While a subscribe of a connection is parked at its gate at
 		// most one operation that may close that connection is started; before a second one the gate is released.
 		closeIssued := map[*vfC08ConnState]bool{}
+		gatedSubPending := func(k *vfC08ConnState) bool {
+			if k.gatedSub && k.idle() {
+				k.gatedSub = false
+			}
+			return k.gatedSub
+		}
+		releaseSubGate := func(k *vfC08ConnState) {
+			vfSettle() // a subscribe started together with the previous step may not have reached its gate yet
+			w.Gates.Disarm("sub:" + k.conn.Name)
+			for w.Gates.Release("sub:" + k.conn.Name) {
+			}
+			vfSettle()
+			closeIssued[k] = false
+			out.label("sub_gate_auto_released")
+		}
 		guardClose := func(targets []*vfC08ConnState) {
 			for _, k := range targets {
-				if w.Gates.Waiting("sub:"+k.conn.Name) == 0 {
+				if !gatedSubPending(k) {
 					closeIssued[k] = false
 					continue
 				}
 				if closeIssued[k] {
-					for w.Gates.Release("sub:" + k.conn.Name) {
-					}
-					vfSettle()
-					closeIssued[k] = false
-					out.label("sub_gate_auto_released")
+					releaseSubGate(k)
 					continue
 				}
 				closeIssued[k] = true
@@ -652,16 +664,10 @@ func vfC08Run(t *testing.T, cs vfC08Case, out *vfC08Out, isKnown func(string) bo
 			return r
 		}
 		releaseAllSubGates := func() {
-			rel := false
 			for _, k := range states {
-				for w.Gates.Release("sub:" + k.conn.Name) {
-					rel = true
+				if gatedSubPending(k) {
+					releaseSubGate(k)
 				}
-				closeIssued[k] = false
-			}
-			if rel {
-				vfSettle()
-				out.label("sub_gate_auto_released")
 			}
 		}
 		inPar := false
@@ -723,6 +729,8 @@ func vfC08Run(t *testing.T, cs vfC08Case, out *vfC08Out, isKnown func(string) bo
 					}
 					if !applied {
 						w.Gates.Disarm("sub:" + k.conn.Name)
+					} else if s.Gate {
+						k.gatedSub = true
 					}
 				}
 			case vfC08UnsubCmd:
